@@ -127,4 +127,50 @@ def rule_b(ctx: Ctx) -> None:
                 'pass the current element explicitly.')
 
 
-RULES = [rule_a, rule_b]
+def rule_c(ctx: Ctx) -> None:
+    """The positional predicate of an error path is decided by a count over *all* children of the parent."""
+    rule = 'C19.c'
+    f = ctx.idx.func('xmlschema.utils.etree.etree_getpath')
+    ctx.analysed(f.qualname)
+    deciders = []
+    for n in walk_no_nested(f.node):
+        if isinstance(n, ast.If):
+            both = list(n.body) + list(n.orelse)
+            if any(isinstance(x, ast.JoinedStr) and any(isinstance(v, ast.Constant) and '[' in str(v.value) for v in x.values)
+                   for s_ in both for x in ast.walk(s_)):
+                if not any(isinstance(x, ast.If) for s_ in n.body for x in ast.walk(s_)):
+                    deciders.append(n)
+    ctx.floor(rule, 'tests deciding the positional predicate in etree_getpath', len(deciders), 1)
+    for d in deciders:
+        names = {x.id for x in ast.walk(d.test) if isinstance(x, ast.Name)}
+        loops = [lp for lp in walk_no_nested(f.node) if isinstance(lp, ast.For) and
+                 any(isinstance(x, (ast.AugAssign, ast.Assign)) and
+                     any(isinstance(t, ast.Name) and t.id in names for t in ([x.target] if isinstance(x, ast.AugAssign) else x.targets))
+                     for s_ in lp.body for x in ast.walk(s_))]
+        loops = [lp for lp in loops if not any(inner is not lp and inner in loops for inner in ast.walk(lp) if isinstance(inner, ast.For))]   # innermost
+        direct = [s_ for s_ in walk_no_nested(f.node) if isinstance(s_, ast.Assign) and any(isinstance(t, ast.Name) and t.id in names for t in s_.targets)
+                  and isinstance(s_.value, ast.Call) and text(s_.value.func) in ('sum', 'len')]
+        ok = bool(loops) or bool(direct)
+        det = ''
+        for lp in loops:
+            if text(lp.iter) not in ('parent', 'list(parent)', 'iter(parent)'):
+                ok = False
+                det = f'the count iterates `{text(lp.iter)}`, not all children of the parent'
+            ex = [x for s_ in lp.body for x in ast.walk(s_) if isinstance(x, (ast.Break, ast.Return))]
+            if ex:
+                ok = False
+                det = f'the counting loop leaves early (line {ex[0].lineno}): same-named siblings after the element are not counted, so the first of ' \
+                      f'several same-named siblings gets no [n] predicate and its path selects all of them'
+        ctx.ob(rule, f'etree_getpath: the same-name sibling count that decides `{text(d.test)}` scans every child of the parent', f.loc(d), ok, det,
+               key='etree_getpath|full-scan')
+    # error paths ask for positions
+    import re
+    ex = ctx.idx.module('validators.exceptions')
+    uses = [c for fn in ctx.idx.iter_functions('validators') for c in calls(fn.node) if text(c.func).endswith('etree_getpath')]
+    ok = bool(uses) and all(any(k.arg == 'add_position' and text(k.value) == 'True' for k in c.keywords) for c in uses)
+    ctx.ob(rule, 'validation errors compute their path with add_position=True', f'{ex.relpath}:1', ok, f'{len(uses)} call site(s)', key='error-path|add-position')
+    ctx.explain('C19.c: the test that decides whether a step gets a positional predicate depends on a counter that is computed by '
+                'a loop over all children of the parent with no early exit.')
+
+
+RULES = [rule_a, rule_b, rule_c]
